@@ -27,7 +27,7 @@ RULE = ('each run = one generated content length/hash set/size hint/read-chunk s
         'happened or the length is at a buffering threshold or the hint is wrong; distinct '
         '= distinct seam event-log digest')
 PLAN = {'quick': {'n': 6000, 'budget_s': 90, 'block': 60},
-        'thorough': {'n': 60000, 'budget_s': 400, 'block': 200}}
+        'thorough': {'n': 300000, 'budget_s': 2400, 'block': 200}}
 ASSUMPTIONS = ['hashlib one-shot digests are the reference',
                'WHIRLPOOL is not available in this interpreter: only its rejection is checked']
 
